@@ -138,31 +138,53 @@ def _mw(s, default):
     return ite(either(mk_bool(mw.isnone), mw.val == 0), default, mw.val)
 
 
+PV_KEY = PA + "Padding.padding_values"
+
+
+@contract(PV_KEY, property="C01", alias="fixed", inline=PINL, deterministic=True, replayable=False)
+class padding_values_fixed:
+    """padding_values((), focus): the margins render(()) pads the child with -- "the number of columns to pad on the left
+    and right" (documented, overridable).  For the natural size only this matters: they are never negative (the child,
+    drawn at its own size, is never cut), and they are a function of the padding's settings and the child's answers
+    (`deterministic`: pack(()) and render(()) see the same pair)."""
+    self_shape = PADDING
+    params = dict(size=Tup(), focus=Bool)
+    result = Tup(Int, Int)
+    raises = ()
+
+    def requires(s, a):
+        W = PROTOCOLS["Widget"]
+        cw = W.call_quiet(cur(), s._original_widget, "pack", dict(size=(), focus=a.focus))[0]
+        return both(padding_wf(s), neg(s._width_type == "clip"),
+                    implies(s._width_type == "relative", both(val(s._width_amount) >= 1, cw * 100 + s.left + s.right < B)))
+
+    def ensures(old, s, a, result):
+        yield "margins-never-negative", both(result[0] >= 0, result[1] >= 0)
+        yield "frame", both(*[eq(s.fields[k], old.fields[k]) for k in ("left", "right", "_align_type", "_align_amount", "_width_type", "_width_amount", "min_width")])
+
+
 def _padding_natural(old, focus):
     """[(label, predicate over a (cols, rows) pair)]: the natural size of a Padding that is not 'clip' -- what pack(())
-    must report and render(()) must draw."""
+    must report and render(()) must draw: the child at its own size (for a given width: at that width) between the
+    margins of padding_values(()).  (Until fix: commit 1f2f4b7 pack(()) computed a width of its own -- rounded half up
+    for a relative width, widened to min_width -- that render(()) did not draw.)"""
     W = PROTOCOLS["Widget"]
     w = old._original_widget
-    expand = old.left + old.right
+    left, right = padding_values_fixed.spec_value(old, size=(), focus=focus)
     out = []
     if old._width_type == "given":
         wa = val(old._width_amount)
-        out.append(("fixed-given-width-plus-margins", lambda r: r[0] == imax(wa, _mw(old, 1)) + expand))
+        out.append(("fixed-given-width-between-the-margins", lambda r: r[0] == left + wa + right))
         out.append(("fixed-given-rows-of-child-at-that-width", lambda r: r[1] == W.call_quiet(cur(), w, "rows", dict(size=(wa,), focus=focus))))
     else:
         cw, ch = W.call_quiet(cur(), w, "pack", dict(size=(), focus=focus))
         out.append(("fixed-rows-are-the-childs", lambda r: r[1] == ch))
-        if old._width_type == "pack":
-            out.append(("fixed-pack-childs-width-plus-margins", lambda r: r[0] == imax(cw, _mw(old, 1)) + expand))
-        else:
-            wa = val(old._width_amount)
-            # the child takes wa percent: the whole is the child's width scaled by 100 / wa, rounded half up
-            out.append(("fixed-relative-scaled-width-plus-margins", lambda r: r[0] == imax(fdiv(2 * cw * 100 + wa, 2 * wa), _mw(old, 1)) + expand))
+        out.append(("fixed-childs-width-between-the-margins", lambda r: r[0] == left + cw + right))
     return out
 
 
 @contract(PA + "Padding.pack", property="C01", inline=("urwid/widget/widget.py:Widget.pack", "urwid/widget/widget_decoration.py:WidgetDecoration.original_widget"),
-          replayable=False, call_real=sizing_call_real)
+          replayable=False, call_real=sizing_call_real, contract_overrides={PV_KEY: padding_values_fixed})
 class padding_pack:
     """Box size: as given.  Flow size: (maxcol, own rows) -- for a Padding that reports FLOW, WidgetError otherwise.
     No size: the natural size -- the child's natural (or, for a given width, flow) size widened by the margins and the
@@ -178,7 +200,9 @@ class padding_pack:
             # (the flow case goes through Padding.rows: its precondition -- the child fits, C09 -- is this one's)
             return both(base, padding_rows.requires(s, a))
         if len(a.size) == 0:
-            return both(base, implies(s._width_type == "relative", val(s._width_amount) >= 1))
+            W = PROTOCOLS["Widget"]
+            cw = W.call_quiet(cur(), s._original_widget, "pack", dict(size=(), focus=a.focus))[0]
+            return both(base, implies(s._width_type == "relative", both(val(s._width_amount) >= 1, cw * 100 + s.left + s.right < B)))
         return base
 
     def ensures(old, s, a, result):
@@ -193,7 +217,6 @@ class padding_pack:
             yield "fixed-never-for-clip", neg(old._width_type == "clip")
             for label, want in _padding_natural(old, a.focus):
                 yield label, want(result)
-            yield "fixed-wide-enough-for-the-margins-and-a-column", result[0] >= old.left + old.right + 1
 
     def on_raise(old, s, a, exc):
         if exc.cls is PaddingError:
@@ -202,11 +225,8 @@ class padding_pack:
             yield "widget-error-only-for-flow-size-of-a-padding-that-is-not-flow", both(len(a.size) == 1, neg(_has(padding_sizing.spec_value(old), Sizing.FLOW)))
 
 
-PV_KEY = PA + "Padding.padding_values"
-
-
 @contract(PA + "Padding.render", property="C01", alias="fixed", replayable=False, call_real=sizing_call_real,
-          inline=("urwid/widget/widget_decoration.py:WidgetDecoration.original_widget", PV_KEY), contract_overrides={PV_KEY: None})
+          inline=("urwid/widget/widget_decoration.py:WidgetDecoration.original_widget",), contract_overrides={PV_KEY: padding_values_fixed})
 class padding_render_fixed:
     """render(()) of a Padding that reports FIXED sizing (not 'clip'): exactly the size pack(()) reports.
     (The box / flow renderings are contracts/C09_geometry.py: padding_render.)"""
@@ -222,9 +242,8 @@ class padding_render_fixed:
         return both(padding_wf(s), neg(s._width_type == "clip"), implies(s._width_type == "relative", both(val(s._width_amount) >= 1, cw * 100 + s.left + s.right < B)))
 
     def ensures(old, s, a, r):
-        # FAILS-ON-TREE: Padding(Text('abcdef'), 'left', 'pack', min_width=9): pack(()) == (9, 1), render(()) is 6 x 1;
-        #   Padding(Text('abcdef'), 'left', 3, min_width=5): pack(()) == (5, 2), render(()) is 3 x 2;
-        #   Padding(Text('ab cd ef gh'), 'left', ('relative', 30)): pack(()) == (37, 1), render(()) is 36 x 1
+        # (failed on the tree until fix: commit 1f2f4b7: Padding(Text('abcdef'), 'left', 'pack', min_width=9): pack(()) == (9, 1),
+        #  render(()) 6 x 1; Padding(Text('ab cd ef gh'), 'left', ('relative', 30)): pack(()) == (37, 1), render(()) 36 x 1)
         for label, want in _padding_natural(old, a.focus):
             yield "canvas-" + label, want((r.ncols, r.nrows))
         yield "cursor-inside", canvas_wf(r)
